@@ -993,7 +993,7 @@ class RestAPI(object):
                 quota described in Stepfunction Quotas page.
                 https://docs.aws.amazon.com/step-functions/latest/dg/limits.html
                 """
-                if len(input_as_string) > MAX_DATA_LENGTH:
+                if not isinstance(input_as_string, str) or len(input_as_string) > MAX_DATA_LENGTH:
                     self.logger.error(
                         "RestAPI StartSyncExecution: input size for execution "
                         "'{}' exceeds the maximum number of characters "
@@ -1344,7 +1344,7 @@ class RestAPI(object):
                 quota described in Stepfunction Quotas page.
                 https://docs.aws.amazon.com/step-functions/latest/dg/limits.html
                 """
-                if len(output) > MAX_DATA_LENGTH:
+                if not isinstance(output, str) or len(output) > MAX_DATA_LENGTH:
                     self.logger.error(
                         "RestAPI SendTaskSuccess: InvalidOutput: size exceeds "
                         "the maximum number of characters service limit."
